@@ -20,6 +20,8 @@ mod c43;
 mod c11;
 mod c13;
 mod c08;
+mod crash;
+mod crashchecks;
 mod c05;
 mod c26;
 mod c27;
@@ -33,6 +35,12 @@ mod world;
 
 fn main() {
     let args: Vec<String> = std::env::args().collect();
+    if args.len() >= 3 && args[1] == "--crash-child" {
+        crash::child_main(&args[2]);
+    }
+    if args.len() >= 4 && args[1] == "--crash-observe" {
+        crash::observe_main(&args[2], &args[3]);
+    }
     if args.len() >= 2 && args[1] == "SQL" {
         std::process::exit(sqlprobe::main());
     }
@@ -93,6 +101,9 @@ fn main() {
         "C11" => c11::main(tier, replay.clone()),
         "C13" => c13::main(tier, replay.clone()),
         "C08" => c08::main(tier, replay.clone()),
+        "C01" => crashchecks::main("C01", tier, replay.clone()),
+        "C02" => crashchecks::main("C02", tier, replay.clone()),
+        "C40" => crashchecks::main("C40", tier, replay.clone()),
         "C05" => c05::main(tier, replay.clone()),
         "C26" => c26::main(tier, replay.clone()),
         "C27" => c27::main(tier, replay.clone()),
